@@ -46,8 +46,18 @@ THEOREMS = [
     "Spydr.Eblif.parse_rendered_subckt",
     "Spydr.Eblif.eblif_reader_spec_partial",
     "Spydr.Eblif.eblif_roundtrip_partial",
+    "Spydr.Eblif.compose_tokens_good",
+    "Spydr.Eblif.read_composed_text",
+    "Spydr.Eblif.parse_composed_lines",
+    "Spydr.Eblif.split_written_bit",
+    "Spydr.Eblif.eblif_roundtrip_subckt",
+    "Spydr.Eblif.pins_exact_all",
+    "Spydr.Eblif.onNet_exact_all",
+    "Spydr.Eblif.self_contained",
+    "Spydr.Eblif.undeclared_leaf",
+    "Spydr.Eblif.formal_actual_port_step",
 ]
-MODULES = ["Spydr.Eblif.Props.C18"]
+MODULES = ["Spydr.Eblif.Props.C18", "Spydr.Eblif.Props.C18RoundTrip"]
 
 FINDING = {
     "blackbox-ports": "eblif.blackbox-pins-keep-wire-of-removed-cable",
@@ -537,8 +547,9 @@ def run(ctx):
         "not part of the round-trip comparison (not in C18's list)",
     ]
     ctx.partial_notes = [
-        "eblif_reader_spec and eblif_roundtrip are proved in _partial form (see docs/eblif.md); the full statements are in the "
-        "Lean file as comments",
+        "the round trip is proved for the .subckt/.gate fragment (eblif_roundtrip_subckt, conditional on the second read "
+        "succeeding); .names/.latch instances, .conn lines, INOUT ports, written black-box blocks and port lists are covered "
+        "by the correspondence check only (see docs/eblif.md)",
     ]
     if not ok:
         return
